@@ -269,6 +269,9 @@ func TestC27_PruningKeepsRetainedState(t *testing.T) {
 			b.SetPreviousBlock(prev.b)
 			var prog []c27txn
 			ntx := rapid.IntRange(1, 4).Draw(t, "txns")
+			if tag == "main-empty" {
+				ntx = 0 // a block that changes no state
+			}
 			for ti := 0; ti < ntx; ti++ {
 				var tx c27txn
 				sofar, _ := c27apply(prev.model, prog)
@@ -387,6 +390,27 @@ func TestC27_PruningKeepsRetainedState(t *testing.T) {
 		}
 		for len(chain)-1 < nBlocks {
 			tip := chain[len(chain)-1]
+			if lfbIdx == len(chain)-1 && rapid.IntRange(0, 14).Draw(t, "rollback") == 7 {
+				// a block is finalized for the next round by mistake and the round is then finalized again with the block it
+				// really ends with (the chain's recovery from an incorrectly finalized block), which may change no state
+				wrong := build(tip, "fork")
+				r := round.NewRound(wrong.b.Round)
+				r.SetRandomSeed(wrong.b.RoundRandomSeed, 1)
+				c.AddRound(r)
+				if err := c.finalizeBlock(ctx, wrong.b, c27bsh{}); err != nil {
+					t.Fatalf("VERIF-HARNESS-ERROR finalizeBlock(wrong block of round %d): %v", wrong.b.Round, err)
+				}
+				tagR := "main"
+				if rapid.Bool().Draw(t, "winnerChangesNothing") {
+					tagR = "main-empty"
+				}
+				nbR := build(tip, tagR)
+				chain = append(chain, nbR)
+				fp = append(fp, "rollback", hex.EncodeToString(nbR.b.ClientStateHash[:4]))
+				finalizeNext()
+				st.Class("finalized-block-rolled-back/" + tagR)
+				continue
+			}
 			nb := build(tip, "main")
 			if rapid.IntRange(0, 11).Draw(t, "siblingFork") == 0 {
 				// a competing block of the same round on the same parent, computed but never finalized
